@@ -13,7 +13,7 @@
  * Lines:
  *   F <local> <n> <p0> ... <p(n-1)>     forest: p = `-` root, `g` global zone (no endpoints), else parent index
  *   M <method> <sender> <origin> <objzone> <execzone> <cmdep> <acfg> <acmd> <exists> <var>
- *        | <objects> <files> <relayed> <executed> <replied> <fromzone> <hasendpoint>
+ *        | <objects> <files> <relayed> <executed> <replied> <fromzone> <hasendpoint> <foreign>
  *     sender : a<z> authenticated connection whose identity is a configured endpoint of zone z (for the local
  *              zone the receiver's peer) · n<z> the same identity, certificate NOT verified · u authenticated
  *              identity without Endpoint object · x anonymous
@@ -22,14 +22,25 @@
  *     execzone: event::ExecutedCommand: zone of the endpoint stored in executions[uuid] (`-`: no such execution);
  *              event::ExecuteCommand: the `endpoint` parameter names endpoint `b` of that zone, i.e. another node
  *              (`-`: no such parameter resp. var=1: it names the receiver) => forwarding branch
- *     cmdep  : 1 = the checkable's command_endpoint is the endpoint the sender's identity names
+ *     cmdep  : the checkable's command_endpoint: 0 none · 1 the endpoint the sender's identity names · 2 the OTHER endpoint of
+ *              the sender's zone (its HA partner; for the receiver's own-zone peer that is the receiver) · 3 the receiver
  *     exists : 0 = the parameters name objects that do not exist (malformed stream)
  *     var    : 0 host / 1 service `s` of that host / 2 service `s<objzone>` of the zone-less host hU (the service's own
  *              zone differs from its host's); event::SetRemovalInfo: bit 0 host/service, bit 1 comment/downtime;
- *              event::ExecuteCommand: 1 = `endpoint` parameter names the receiver; pki::UpdateCertificate: 1 = own-certificate branch
+ *              event::ExecuteCommand: local branch 1 = `endpoint` parameter names the receiver, 2 = with `source`/`deadline`
+ *              (an execution started through the API); forwarding branch 2 = the child endpoints cannot execute arbitrary
+ *              commands (error notice :972-994), 3 = the host is one the child zone cannot access (error notice :1027-1051
+ *              when the target sits deeper than the direct child); pki::UpdateCertificate: 1 = own-certificate branch;
+ *              config::UpdateObject: 0 object does not exist, config text given (create) · 1 runtime object exists, newer
+ *              version, a modified attribute · 2 exists, version NOT newer · 3 does not exist, empty config text · 4 exists,
+ *              newer version, no modified attributes (version only) · 5 like 1 for an object not created through the API;
+ *              config::DeleteObject: 0 runtime object (`exists` says whether it is there) · 1 an object not created through
+ *              the API; config::Update: 0 empty file set · 1 a real .conf file, timestamps only (pre-2.11 sender), staged
+ *              config validates · 2 the same with checksums · 3 like 2, staged config does NOT validate
  *   observation: bits objects files relayed executed; replied = messages queued back to the sender;
  *     fromzone / hasendpoint: what a probe ApiFunction sees as origin->FromZone / FromClient->GetEndpoint()
- *     for a message with the same connection and originZone field (`-` = null).
+ *     for a message with the same connection and originZone field (`-` = null);
+ *     foreign = an object other than the sender's own Endpoint object changed.
  *
  * Modes: gen --seed S --tier quick|thorough --work DIR    enumeration (fixed forest, every receiver position)
  *                                                          + seeded random forests
@@ -44,6 +55,7 @@
 #include "base/tlsstream.hpp"
 #include "base/function.hpp"
 #include "base/workqueue.hpp"
+#include "base/process.hpp"
 #include "remote/apilistener.hpp"
 #include "remote/apifunction.hpp"
 #include "remote/endpoint.hpp"
@@ -235,12 +247,12 @@ static void GenCases(const Forest& f, Rng& rng, std::vector<std::string>& out, i
 		for (auto& p : so)
 			for (auto& oz : objz) {
 				if (!pick()) continue;
-				EmitM(g, m, p.first, p.second, oz, "-", 0, flip & 1, (flip >> 1) & 1, 1, varFor(m, oz, flip >> 2));
+				EmitM(g, m, p.first, p.second, oz, "-", TargetsCheckable(m) ? (flip >> 1) % 4 : 0, flip & 1, (flip >> 1) & 1, 1, varFor(m, oz, flip >> 2));
 				flip++;
 			}
 	for (auto& p : so)
 		for (auto& oz : objz)
-			for (int cmdep = 0; cmdep < 2; cmdep++) {
+			for (int cmdep = 0; cmdep < 4; cmdep++) {
 				if (!pick()) continue;
 				EmitM(g, "event::CheckResult", p.first, p.second, oz, "-", cmdep, flip & 1, (flip >> 1) & 1, 1, varFor("event::CheckResult", oz, flip >> 2));
 				flip++;
@@ -269,7 +281,7 @@ static void GenCases(const Forest& f, Rng& rng, std::vector<std::string>& out, i
 	/* command execution: accept_commands on/off, without / with the local endpoint as target */
 	for (auto& p : so)
 		for (int acmd = 0; acmd < 2; acmd++)
-			for (int var = 0; var < 2; var++) {
+			for (int var = 0; var < 3; var++) {
 				if (!pick()) continue;
 				EmitM(g, "event::ExecuteCommand", p.first, p.second, "-", "-", 0, flip & 1, acmd, 1, var);
 				flip++;
@@ -279,17 +291,30 @@ static void GenCases(const Forest& f, Rng& rng, std::vector<std::string>& out, i
 		for (auto& tz : g.zonesReal)
 			for (int acmd = 0; acmd < 2; acmd++) {
 				if (!pick()) continue;
-				EmitM(g, "event::ExecuteCommand", p.first, p.second, "-", tz, 0, flip & 1, acmd, 1, 0);
+				EmitM(g, "event::ExecuteCommand", p.first, p.second, "-", tz, 0, flip & 1, acmd, 1, (flip % 3 == 0) ? 0 : 1 + flip % 3);
 				flip++;
 			}
 	/* configuration: accept_config on/off */
-	for (const char *m : { "config::Update", "config::UpdateObject", "config::DeleteObject" })
-		for (auto& p : so)
-			for (int acfg = 0; acfg < 2; acfg++) {
+	/* every branch of every handler: config::UpdateObject var 0-5, config::DeleteObject runtime object there / gone /
+	 * not an API object, config::Update empty / real files (without, with checksums; validation ok / failing) */
+	for (auto& p : so)
+		for (int acfg = 0; acfg < 2; acfg++) {
+			for (int var = 0; var < 6; var++) {
 				if (!pick()) continue;
-				EmitM(g, m, p.first, p.second, objz[flip % objz.size()], "-", 0, acfg, flip & 1, 1, 0);
+				EmitM(g, "config::UpdateObject", p.first, p.second, objz[flip % objz.size()], "-", 0, acfg, flip & 1, 1, var);
 				flip++;
 			}
+			for (int k = 0; k < 3; k++) {
+				if (!pick()) continue;
+				EmitM(g, "config::DeleteObject", p.first, p.second, objz[flip % objz.size()], "-", 0, acfg, flip & 1, k == 2 ? 0 : 1, k == 1 ? 1 : 0);
+				flip++;
+			}
+			for (int var = 0; var < 4; var++) {
+				if (!pick()) continue;
+				EmitM(g, "config::Update", p.first, p.second, objz[flip % objz.size()], "-", 0, acfg, flip & 1, 1, var);
+				flip++;
+			}
+		}
 	/* certificates, session */
 	for (const char *m : { "pki::UpdateCertificate", "pki::RequestCertificate", "icinga::Hello", "log::SetLogPosition", "event::Heartbeat" })
 		for (auto& p : so) {
@@ -715,6 +740,17 @@ static std::string SenderEndpointName(const Case& c)
 	return EpName(z, z == l_F.local ? 'b' : 'a');
 }
 
+/* ApiListener::TryActivateZonesStage validates staged configuration by running argv[0] with the daemon's arguments
+ * plus --validate; the harness's "daemon" is /bin/true resp. /bin/false. */
+static char *l_ArgvTrue[] = { (char *)"/bin/true", nullptr };
+static char *l_ArgvFalse[] = { (char *)"/bin/false", nullptr };
+
+static void SetValidator(bool ok)
+{
+	Application::SetArgC(1);
+	Application::SetArgV(ok ? l_ArgvTrue : l_ArgvFalse);
+}
+
 static void RemoveRuntimeUser()
 {
 	ConfigObject::Ptr o = ConfigObject::GetObject("User", "rtu");
@@ -759,8 +795,13 @@ static Dictionary::Ptr Prepare(const Case& c)
 	l_Listener->SetAcceptConfig(c.acfg != 0);
 	l_Listener->SetAcceptCommands(c.acmd != 0);
 	if (chk) {
-		std::string sep = SenderEndpointName(c);
-		SetF(chk, "command_endpoint", c.cmdep && !sep.empty() ? String(sep) : String());
+		std::string sep = SenderEndpointName(c), ce;
+		if (c.cmdep == 1) ce = sep;
+		else if (c.cmdep == 2 && !sep.empty()) {
+			int z = atoi(c.sender.c_str() + 1);
+			ce = EpName(z, z == l_F.local ? 'a' : 'b');
+		} else if (c.cmdep == 3) ce = EpName(l_F.local, 'a');
+		SetF(chk, "command_endpoint", String(ce));
 	}
 
 	if (m == "event::CheckResult") {
@@ -806,7 +847,11 @@ static Dictionary::Ptr Prepare(const Case& c)
 			p->Set("endpoint", String(EpName(atoi(c.execzone.c_str()), 'b')));
 			p->Set("host", String(HostName(c.execzone)));
 			p->Set("source", String("src" + std::to_string(l_Tick))); p->Set("deadline", l_Now + 300);
+			/* ... or take them: var 2 no endpoint can, var 3 a host of the receiver's own zone */
+			if (c.var == 2) for (auto& kv : l_Endpoints) kv.second->SetCapabilities(0);
+			if (c.var == 3) p->Set("host", String(HostName(std::to_string(l_F.local))));
 		} else if (c.var == 1) p->Set("endpoint", String(EpName(l_F.local, 'a')));
+		else if (c.var == 2) { p->Set("source", String("src" + std::to_string(l_Tick))); p->Set("deadline", l_Now + 300); }
 	} else if (m == "event::SendNotifications") {
 		hostParams(); p->Set("type", 32); p->Set("author", "a"); p->Set("text", "t");
 	} else if (m == "event::NotificationSentUser") {
@@ -839,18 +884,49 @@ static Dictionary::Ptr Prepare(const Case& c)
 		std::error_code ec;
 		fs::remove_all(l_Dir + "/api/zones-stage", ec);
 		fs::remove_all(l_Dir + "/api/zones", ec);
+		for (const char *f : { "/api/zones-stage-startup.log", "/api/zones-stage-status", "/api/zones-stage-startup-last-failed.log" })
+			fs::remove(l_Dir + f, ec);
+		l_Listener->SetLastFailedZonesStageValidation(Dictionary::Ptr());
 		String zn = String(ZoneName(l_F.local));
-		p->Set("update", Dictionary::Ptr(new Dictionary({ { zn, Dictionary::Ptr(new Dictionary()) } })));
-		p->Set("update_v2", Dictionary::Ptr(new Dictionary({ { zn, Dictionary::Ptr(new Dictionary({ { "/.timestamp", "0" } })) } })));
+		if (c.var == 0) {
+			p->Set("update", Dictionary::Ptr(new Dictionary({ { zn, Dictionary::Ptr(new Dictionary()) } })));
+			p->Set("update_v2", Dictionary::Ptr(new Dictionary({ { zn, Dictionary::Ptr(new Dictionary({ { "/.timestamp", "0" } })) } })));
+		} else {
+			/* real content: one configuration file and a fresh timestamp; the stage is validated by running
+			 * argv[0] --validate ... (ApiListener::TryActivateZonesStage) */
+			String content = String("object User \"synced" + std::to_string(l_Tick) + "\" {\n}\n");
+			String ts = String(std::to_string((long)l_Now));
+			p->Set("update", Dictionary::Ptr(new Dictionary({ { zn, Dictionary::Ptr(new Dictionary({ { "/_etc/users.conf", content } })) } })));
+			p->Set("update_v2", Dictionary::Ptr(new Dictionary({ { zn, Dictionary::Ptr(new Dictionary({ { "/.timestamp", ts } })) } })));
+			if (c.var >= 2)
+				p->Set("checksums", Dictionary::Ptr(new Dictionary({ { zn, Dictionary::Ptr(new Dictionary({
+					{ "/_etc/users.conf", SHA256(content) }, { "/.timestamp", SHA256(ts) } })) } })));
+			SetValidator(c.var != 3);
+		}
 	} else if (m == "config::UpdateObject") {
-		RemoveRuntimeUser();
-		p->Set("name", "rtu"); p->Set("type", "User"); p->Set("version", v);
-		p->Set("config", "object User \"rtu\" {\n}\n");
+		bool existing = c.var == 1 || c.var == 2 || c.var == 4 || c.var == 5;
+		String name = c.var == 5 ? "u1" : "rtu";
+		if (c.var != 5) { if (existing) CreateRuntimeUser(); else RemoveRuntimeUser(); }
+		ConfigObject::Ptr obj = ConfigObject::GetObject("User", name);
+		if (existing && !obj) Die("config::UpdateObject: target object missing");
+		if (obj) { obj->SetVersion(l_Now, false); Sync(); }
+		p->Set("name", name); p->Set("type", "User");
+		p->Set("version", c.var == 2 ? l_Now - (double)(l_Tick % 2) * 5 : v);
+		p->Set("config", (c.var == 3 || c.var == 4) ? String() : String("object User \"rtu\" {\n}\n"));
 		if (c.objzone != "-") p->Set("zone", String(ZoneName(atoi(c.objzone.c_str()))));
-		p->Set("modified_attributes", Dictionary::Ptr(new Dictionary())); p->Set("original_attributes", Array::Ptr(new Array()));
+		Dictionary::Ptr mod = new Dictionary();
+		if (c.var == 1 || c.var == 2 || c.var == 5)
+			mod->Set("enable_notifications", obj ? !static_pointer_cast<User>(obj)->GetEnableNotifications() : false);
+		p->Set("modified_attributes", mod); p->Set("original_attributes", Array::Ptr(new Array()));
 	} else if (m == "config::DeleteObject") {
-		if (c.exists) CreateRuntimeUser(); else RemoveRuntimeUser();
-		p->Set("name", "rtu"); p->Set("type", "User"); p->Set("version", v);
+		if (c.var == 1) {
+			if (!ConfigObject::GetObject("User", "u2")) { User::Ptr u = new User(); u->SetName("u2"); Bring(u); }
+			p->Set("name", "u2");
+		} else {
+			if (c.exists) CreateRuntimeUser(); else RemoveRuntimeUser();
+			p->Set("name", "rtu");
+		}
+		p->Set("type", "User"); p->Set("version", v);
 	} else if (m == "pki::UpdateCertificate") {
 		/* the branch for a certificate of another node: the signed certificate is stored with the pending
 		 * request certificate-requests/<fingerprint>.json (the branch that replaces the node's own certificate
@@ -925,10 +1001,17 @@ static void RunCase(const Case& c)
 	}
 	std::string fz = l_ProbeZone;
 	if (fz.size() > 1 && fz[0] == 'z') fz = fz.substr(1);
-	printf("M %s %s %s %s %s %d %d %d %d %d | %d %d %d %d %d %s %d\n", c.method.c_str(), c.sender.c_str(), c.origin.c_str(),
+	/* did anything but the sender's own Endpoint object change? */
+	bool foreign = false;
+	{
+		std::string own = "Endpoint!" + SenderEndpointName(c);
+		for (auto& kv : o1) if (kv.first != own && (!o0.count(kv.first) || o0[kv.first] != kv.second)) foreign = true;
+		for (auto& kv : o0) if (kv.first != own && !o1.count(kv.first)) foreign = true;
+	}
+	printf("M %s %s %s %s %s %d %d %d %d %d | %d %d %d %d %d %s %d %d\n", c.method.c_str(), c.sender.c_str(), c.origin.c_str(),
 		c.objzone.c_str(), c.execzone.c_str(), c.cmdep, c.acfg, c.acmd, c.exists, c.var,
 		o0 != o1 ? 1 : 0, f0 != f1 ? 1 : 0, relayed > 0 ? 1 : 0, l_Executed.load() > 0 ? 1 : 0, replied,
-		fz.c_str(), l_ProbeEndpoint == "-" ? 0 : l_ProbeEndpoint == "!" ? 9 : 1);
+		fz.c_str(), l_ProbeEndpoint == "-" ? 0 : l_ProbeEndpoint == "!" ? 9 : 1, foreign ? 1 : 0);
 	if (getenv("VERIF_C13_DEBUG") && o0 != o1)
 		for (auto& kv : o1) if (!o0.count(kv.first) || o0[kv.first] != kv.second) fprintf(stderr, "  changed: %s\n", kv.first.c_str());
 	if (getenv("VERIF_C13_DEBUG") && f0 != f1)
@@ -947,8 +1030,16 @@ static int NodeMain(const std::string& file, const std::string& work, const std:
 		if (w[0] == "F") {
 			if (built) Die("one forest per node process");
 			if (!ParseForest(w, l_F)) Die("bad F line: " + line);
+			Process::InitializeSpawnHelper();     /* must be forked before any thread exists (daemoncommand.cpp:538) */
 			InitIcinga();
 			BuildNode(work, id);
+			{
+				/* start the process I/O threads now: JoinNewThreads() must not mistake them for a handler's thread */
+				Process::Ptr warm = new Process(Process::PrepareCommand(new Array({ String("/bin/true") })));
+				warm->SetTimeout(600);
+				warm->Run();
+				warm->WaitForResult();
+			}
 			built = true;
 			printf("%s\n", l_F.Line().c_str());
 		} else if (w[0] == "M") {
@@ -969,7 +1060,7 @@ static int RunParts(const char *self, const std::vector<std::vector<std::string>
 	MkDirs(work);
 	InitIcinga();
 	SetupPki(work);
-	size_t maxPar = 6;
+	size_t maxPar = 8;
 	if (const char *e = getenv("VERIF_C13_JOBS")) maxPar = (size_t)std::max(1, atoi(e));
 	std::vector<pid_t> pids(parts.size(), -1);
 	std::vector<int> status(parts.size(), -1);
@@ -1045,6 +1136,21 @@ int main(int argc, char **argv)
 			std::vector<std::string> part = { f.Line() };
 			GenCases(f, rng, part, thorough ? 2 : 3);
 			parts.push_back(part);
+		}
+		/* the cases of one forest are independent of each other (Prepare() establishes each case's precondition): spread a
+		 * long part over several node processes of the same forest so that no single process dominates the wall time */
+		{
+			const size_t chunk = 1500;
+			std::vector<std::vector<std::string>> split;
+			for (auto& part : parts) {
+				for (size_t i = 1; i < part.size(); i += chunk) {
+					std::vector<std::string> piece = { part[0] };
+					piece.insert(piece.end(), part.begin() + i, part.begin() + std::min(part.size(), i + chunk));
+					split.push_back(piece);
+				}
+				if (part.size() == 1) split.push_back(part);
+			}
+			parts.swap(split);
 		}
 	} else if (mode == "ops") {
 		if (argc < 3) return 2;
